@@ -285,7 +285,6 @@ theorem tfields_cons (c : ClassOpts) (fields : List (String × FieldDecl))
     (hA1 : ∀ n, (∀ v, lookup n doc = some v → v.isNone = true) → lookup n args = none)
     (hA2 : ∀ n f v, lookup n fields = some f → lookup n doc = some v → v.isNone = false →
             ∃ y, deser O opts c.ignoreNone f v = .ok y ∧ lookup n args = some y)
-    (hdrop : dropsF f = false)
     (hraw : raw = true → ∀ v, tVal noMappers true f v = .ok v)
     (hnn : ∀ v y, plainV opts f v = true → v.isNone = false →
             deser O opts c.ignoreNone f v = .ok y → y.isNone = false)
@@ -340,7 +339,7 @@ theorem tfields_cons (c : ClassOpts) (fields : List (String × FieldDecl))
           have := hraw hr v'
           rw [this] at e2; exact e2
         · simp only [hr, if_false]; exact e2
-      simp only [hdrop, Bool.and_false, Bool.false_eq_true, if_false, e1, bindE_ok, hval, g1]
+      simp only [e1, bindE_ok, hval, g1]
       refine ⟨(n, u') :: ar', rfl, ?_, ?_⟩
       · simp [tnormAttrs, hu'n, hun, e3, g2]
       · simp only [nonNoneAttrs, List.filter, hu'n, hun, Bool.not_false] at g3 ⊢
@@ -395,7 +394,7 @@ theorem feq_enumCls (b ign : Bool) (cls : String) (names : List String) (v w u :
         subst this
         rw [hc] at hs; cases hs
     refine ⟨.enumv cls n, .enumv cls n, ?_, ?_, rfl, rfl, fun _ => rfl, rfl⟩
-    · simp only [enumPre, truthy, hne, Bool.not_false, if_true, enumByName, hc]
+    · simp only [enumPre, enumPreD, truthy, hne, Bool.not_false, if_true, enumByName, hc]
     · simp [tVal]
   · cases hd
 
@@ -460,15 +459,16 @@ theorem feq_arr_scalar (b ign : Bool) (item : FieldDecl) (sz : SizeOpts) (v w u 
         simp [tVal, (isArrScalar_not_ref item hi).1, (isArrScalar_not_ref item hi).2]
 
 theorem isSetScalarOk_props (f : FieldDecl) (h : isSetScalarOk f = true) :
-    isArrScalar f = true ∧ isSetScalar f = true := by
-  cases f <;> simp [isSetScalarOk] at h <;> exact ⟨rfl, rfl⟩
+    isArrScalar f = true ∧ isEnumDecl f = false ∧ isClassRef f = false := by
+  cases f <;> simp [isSetScalarOk] at h <;> exact ⟨rfl, rfl, rfl⟩
 
 theorem feq_set_scalar (b ign imm : Bool) (item : FieldDecl) (sz : SizeOpts) (v w u : PyVal)
     (hi : isSetScalarOk item = true) (hp : plainV opts (.setOf imm item sz) v = true)
     (hd : deser O opts ign (.setOf imm item sz) v = .ok w)
     (hv : validate O (.setOf imm item sz) w = .ok u) : FEq O b (.setOf imm item sz) v u := by
   have ha := (isSetScalarOk_props item hi).1
-  have hss := (isSetScalarOk_props item hi).2
+  have hne := (isSetScalarOk_props item hi).2.1
+  have hnc := (isSetScalarOk_props item hi).2.2
   simp only [plainV] at hp
   cases v <;> simp at hp
   rename_i xs
@@ -498,7 +498,7 @@ theorem feq_set_scalar (b ign imm : Bool) (item : FieldDecl) (sz : SizeOpts) (v 
       subst hu
       rw [dedup_idem]
       refine ⟨.list ws, .set false (dedup ws), rfl, ?_, ?_, ?_, fun h => by simp [isSetDecl] at h, rfl⟩
-      · simp only [tVal, hss, if_true, pySet, bindE_ok]
+      · simp only [tVal, hne, hnc, Bool.false_eq_true, if_false, pySet, bindE_ok]
         simp only [hany, Bool.false_eq_true, if_false]
       · simp [tnorm]
       · simp [ser, sSeq, seqLike]
@@ -538,6 +538,114 @@ theorem feq_arr_class (b ign : Bool) (item : FieldDecl) (sz : SizeOpts) (v w u :
         · simp [ser, sSeq, seqLike, mkSeq, g3]
         · simp [shallowOk, seqElems, mkSeq]
 
+/-- the stored value of an Enum element: a member for an enum class -/
+def enumResOk (item : FieldDecl) (y : PyVal) : Bool :=
+  match item with
+  | .enumCls _ _ => !isStrV y
+  | _ => true
+
+theorem enum_deser_eq (item : FieldDecl) (x : PyVal) (hE : isEnumDecl item = true) :
+    enumDeser item x = deser O opts false item x := by
+  cases item <;> simp [isEnumDecl] at hE <;> simp [enumDeser, deser]
+
+theorem enum_deser_res (item : FieldDecl) (x w : PyVal) (hE : isEnumDecl item = true)
+    (hp : plainV opts item x = true) (hd : deser O opts false item x = .ok w) : enumResOk item w = true := by
+  cases item <;> simp [isEnumDecl] at hE
+  · rfl
+  · simp only [plainV] at hp
+    cases x <;> simp [isStrV] at hp
+    simp only [deser, PyVal.isNone, Bool.false_and, Bool.false_eq_true, if_false, dEnumCls] at hd
+    split at hd
+    · cases hd; rfl
+    · cases hd
+
+theorem enum_validate_id (item : FieldDecl) (y u : PyVal) (hE : isEnumDecl item = true)
+    (hy : enumResOk item y = true) (hv : validate O item y = .ok u) : u = y := by
+  cases item <;> simp [isEnumDecl] at hE
+  · exact validate_scalar_id O {} _ y u (Or.inr rfl) rfl hv
+  · simp only [enumResOk, Bool.not_eq_true'] at hy
+    simp only [validate] at hv
+    unfold vEnumCls at hv
+    split at hv
+    · simp [isStrV] at hy
+    · exact ite_ok_id hv
+    · cases hv
+
+theorem feq_arr_enum (b ign : Bool) (item : FieldDecl) (sz : SizeOpts) (v w u : PyVal)
+    (hE : isEnumDecl item = true) (hp : plainV opts (.seqOf .list item sz) v = true)
+    (hd : deser O opts ign (.seqOf .list item sz) v = .ok w)
+    (hv : validate O (.seqOf .list item sz) w = .ok u) : FEq O b (.seqOf .list item sz) v u := by
+  have hnc : isClassRef item = false := by cases item <;> simp [isEnumDecl] at hE <;> rfl
+  simp only [plainV] at hp
+  cases v <;> simp at hp
+  rename_i xs
+  simp only [deser, PyVal.isNone, Bool.false_and, Bool.false_eq_true, if_false, dSeq, docSeq] at hd
+  rcases bindE_eq_ok hd with ⟨ws, h1, h2⟩
+  have h1' := toValueErr_eq_ok h1
+  simp only [mkSeq] at h2
+  cases h2
+  have hres : ws.all (enumResOk item) = true := mapE_all _ _ xs ws
+    (fun x hx y hy => enum_deser_res O opts item x y hE (hp x hx) hy) h1'
+  simp only [validate, vSeq, seqElems] at hv
+  split at hv
+  · cases hv
+  · split at hv
+    · cases hv
+    · split at hv
+      · cases hv
+      · rcases bindE_eq_ok hv with ⟨ys, h3, h4⟩
+        have hys : ys = ws := mapE_id_of ws ys
+          (fun x hx y hy => enum_validate_id O item x y hE ((List.all_eq_true.mp hres) x hx) hy) h3
+        subst hys
+        have hu : u = mkSeq .list ys := by
+          split at h4
+          · cases h4
+          · cases h4; rfl
+        subst hu
+        have htr : mapE (enumDeser item) xs = .ok ys := by
+          rw [mapE_congr xs (fun x _ => enum_deser_eq O opts item x hE)]; exact h1'
+        refine ⟨.list xs, .list ys, rfl, ?_, rfl, rfl, fun _ => rfl, rfl⟩
+        simp [tVal, hnc, hE, pyList, htr]
+
+theorem feq_set_enum (b ign imm : Bool) (item : FieldDecl) (sz : SizeOpts) (v w u : PyVal)
+    (hE : isEnumDecl item = true) (hp : plainV opts (.setOf imm item sz) v = true)
+    (hd : deser O opts ign (.setOf imm item sz) v = .ok w)
+    (hv : validate O (.setOf imm item sz) w = .ok u) : FEq O b (.setOf imm item sz) v u := by
+  simp only [plainV] at hp
+  cases v <;> simp at hp
+  rename_i xs
+  simp only [deser, PyVal.isNone, Bool.false_and, Bool.false_eq_true, if_false, dSeq, docSeq] at hd
+  rcases bindE_eq_ok hd with ⟨ws, h1, h2⟩
+  have h1' := toValueErr_eq_ok h1
+  have hres : ws.all (enumResOk item) = true := mapE_all _ _ xs ws
+    (fun x hx y hy => enum_deser_res O opts item x y hE (hp x hx) hy) h1'
+  unfold mkSet at h2
+  split at h2
+  · cases h2
+  · rename_i hany
+    cases h2
+    simp only [validate, vSet] at hv
+    split at hv
+    · cases hv
+    · rcases bindE_eq_ok hv with ⟨ys, h3, h4⟩
+      have hys : ys = dedup ws := mapE_id_of (dedup ws) ys
+        (fun x hx y hy => enum_validate_id O item x y hE
+          ((List.all_eq_true.mp hres) x (mem_of_mem_dedup ws x hx)) hy) h3
+      subst hys
+      have hu : u = .set (false || imm) (dedup (dedup ws)) := by
+        split at h4
+        · cases h4
+        · cases h4; rfl
+      subst hu
+      rw [dedup_idem]
+      have htr : mapE (enumDeser item) xs = .ok ws := by
+        rw [mapE_congr xs (fun x _ => enum_deser_eq O opts item x hE)]; exact h1'
+      refine ⟨.list xs, .set false (dedup ws), rfl, ?_, ?_, ?_, fun h => by simp [isSetDecl] at h, rfl⟩
+      · simp only [tVal, hE, if_true, pySet, htr, bindE_ok]
+        simp only [hany, Bool.false_eq_true, if_false]
+      · simp [tnorm]
+      · simp [ser, sSeq, seqLike]
+
 theorem extrasOf_nil (c : ClassOpts) (names : List String) (args : List (String × PyVal))
     (h : ∀ a ∈ args, names.contains a.1 = true) : extrasOf c names args = [] := by
   unfold extrasOf
@@ -555,7 +663,7 @@ theorem vClassRef_ok_id (c : ClassOpts) (w u : PyVal) (h : vClassRef c w = .ok u
     branch (`raw` = the class is `not_nested`), given the field loop's equivalence `HF` -/
 theorem class_equiv (ign raw : Bool) (c : ClassOpts) (fields : List (String × FieldDecl))
     (defaults : List (String × PyVal)) (v w : PyVal)
-    (hinl : c.inline = false) (hcrash : classCrash fields = false)
+    (hinl : c.inline = false)
     (hp : plainV opts (.struct c fields defaults) v = true)
     (hd : deser O opts ign (.struct c fields defaults) v = .ok w)
     (HF : ∀ doc args attrs, plainFields opts defaults doc fields = true →
@@ -566,7 +674,7 @@ theorem class_equiv (ign raw : Bool) (c : ClassOpts) (fields : List (String × F
         ∃ attrs', tFields noMappers raw c.ignoreNone doc fields = .ok attrs'
           ∧ tnormAttrs attrs' = tnormAttrs attrs
           ∧ mapE (serAttr O fields) (nonNoneAttrs attrs') = mapE (serAttr O fields) (nonNoneAttrs attrs)) :
-    ∃ u', tInst (noMappers c.name) c.name (classCrash fields) (fields.map (·.1)) v
+    ∃ u', tInst (noMappers c.name) c.name (fields.map (·.1)) v
             (fun doc => tFields noMappers raw c.ignoreNone doc fields) = .ok u'
       ∧ tnorm u' = tnorm w ∧ ser O (.struct c fields defaults) u' = ser O (.struct c fields defaults) w
       ∧ shallowOk O (.struct c fields defaults) u' = shallowOk O (.struct c fields defaults) w
@@ -595,7 +703,7 @@ theorem class_equiv (ign raw : Bool) (c : ClassOpts) (fields : List (String × F
       cases hw
       rcases HF doc args attrs hp.2 s2 s3 hvf with ⟨attrs', g1, g2, g3⟩
       refine ⟨.inst c.name attrs', ?_, ?_, ?_, ?_, rfl, fun u hu => vClassRef_ok_id c _ u hu⟩
-      · simp only [tInst, hkw, hcrash, Bool.false_eq_true, if_false, noMappers, remapDoc, TMapper.isNone,
+      · simp only [tInst, hkw, Bool.false_eq_true, if_false, noMappers, remapDoc, TMapper.isNone,
           TMapper.isList, if_true, g1, bindE_ok]
       · simp [tnorm, g2]
       · simp only [ser, sInst, beq_self_eq_true, Bool.true_or, Bool.not_true, Bool.false_eq_true, if_false]
@@ -607,10 +715,13 @@ theorem class_equiv (ign raw : Bool) (c : ClassOpts) (fields : List (String × F
       · simp only [shallowOk, hinl, Bool.false_eq_true, if_false, vClassRef]
         split <;> rfl
 
+/-- an option of a non-optional `AnyOf` in the proved region -/
+def rawOrNone (g : FieldDecl) : Bool := isRawScalar g || isNoneF g
+
 /-- the condition `tsafeFields` puts on one field -/
 def tsafeTop (f : FieldDecl) : Bool :=
   match f with
-  | .anyOf fs => tsafeOpt fs
+  | .anyOf fs => if isOptAnyOf fs then tsafeOpt fs else fs.all rawOrNone
   | g => tsafeD g
 
 theorem tsafeFields_cons (n : String) (f : FieldDecl) (rest : List (String × FieldDecl)) :
@@ -688,7 +799,7 @@ theorem deser_nonNone_D (ign : Bool) (f : FieldDecl) (v w : PyVal) (hs : tsafeD 
     cases hkw : kwOfDict kvs with
     | none => simp [hkw] at hp
     | some doc =>
-      simp only [deser, PyVal.isNone, Bool.false_and, Bool.false_eq_true, if_false, hs.1.1.1, dClassRef, hkw] at hd
+      simp only [deser, PyVal.isNone, Bool.false_and, Bool.false_eq_true, if_false, hs.1.1, dClassRef, hkw] at hd
       rcases bindE_eq_ok hd with ⟨args, _, h2⟩
       unfold vConstruct at h2
       split at h2
@@ -698,47 +809,78 @@ theorem deser_nonNone_D (ign : Bool) (f : FieldDecl) (v w : PyVal) (hs : tsafeD 
 
 theorem tsafeOpt_cases (fs : List FieldDecl) (h : tsafeOpt fs = true) :
     ∃ x y, fs = [x, y] ∧ ((isNoneF y = true ∧ tsafeD x = true ∧ isSetDecl x = false)
-                          ∨ (isNoneF x = true ∧ isRawScalar y = true)) := by
+        ∨ (isNoneF x = true ∧ isNoneF y = false ∧ tsafeD y = true ∧ isSetDecl y = false)) := by
   match fs, h with
   | [x, y], h =>
     refine ⟨x, y, rfl, ?_⟩
-    simp only [tsafeOpt, Bool.or_eq_true, and_true_iff, Bool.not_eq_true'] at h
+    simp only [tsafeOpt, tsafeOptTail, Bool.or_eq_true, and_true_iff, Bool.not_eq_true'] at h
     rcases h with h | h
     · exact Or.inl ⟨h.1.1, h.1.2, h.2⟩
-    · exact Or.inr ⟨h.1, h.2⟩
+    · exact Or.inr ⟨h.1.1, h.1.2, h.2.1, h.2.2⟩
   | [], h => simp [tsafeOpt] at h
   | [_], h => simp [tsafeOpt] at h
   | _ :: _ :: _ :: _, h => simp [tsafeOpt] at h
 
+theorem tsafeOpt_isOpt (fs : List FieldDecl) (h : tsafeOpt fs = true) : isOptAnyOf fs = true := by
+  rcases tsafeOpt_cases fs h with ⟨x, y, rfl, hc⟩
+  rcases hc with ⟨hy, _, _⟩ | ⟨hx, _, _, _⟩
+  · simp [isOptAnyOf, hy]
+  · simp [isOptAnyOf, hx]
+
 theorem isNoneF_eq (f : FieldDecl) (h : isNoneF f = true) : f = .noneF := by
   cases f <;> simp [isNoneF] at h; rfl
-
-theorem dropsDirect_of_tsafeD (f : FieldDecl) (h : tsafeD f = true) : dropsDirect f = false := by
-  cases f <;> try (simp [tsafeD] at h)
-  case setOf imm item sz =>
-    simp [dropsDirect, (isSetScalarOk_props item h).2]
-  all_goals simp [dropsDirect]
-
-theorem dropsF_of_tsafeTop (f : FieldDecl) (h : tsafeTop f = true) : dropsF f = false := by
-  by_cases ha : ∃ fs, f = .anyOf fs
-  · rcases ha with ⟨fs, rfl⟩
-    simp only [tsafeTop] at h
-    rcases tsafeOpt_cases fs h with ⟨x, y, rfl, hc⟩
-    simp only [dropsF]
-    split
-    · rcases hc with ⟨_, hx, _⟩ | ⟨hx, _⟩
-      · exact dropsDirect_of_tsafeD x hx
-      · rw [isNoneF_eq x hx]; rfl
-    · rfl
-  · have hd : tsafeD f = true := by
-      cases f <;> first | exact h | exact absurd ⟨_, rfl⟩ ha
-    have : dropsF f = dropsDirect f := by
-      cases f <;> first | rfl | exact absurd ⟨_, rfl⟩ ha
-    rw [this]; exact dropsDirect_of_tsafeD f hd
 
 theorem deser_noneF_err (ign : Bool) (v : PyVal) (hn : v.isNone = false) :
     deser O opts ign .noneF v = .error .valueErr := by
   simp [deser, hn]
+
+theorem rawOrNone_scalar (g : FieldDecl) (h : rawOrNone g = true) :
+    isArrScalar g = true ∨ isRawScalar g = true := by
+  simp only [rawOrNone, Bool.or_eq_true] at h
+  rcases h with h | h
+  · exact Or.inr h
+  · rw [isNoneF_eq g h]; exact Or.inl rfl
+
+/-- a non-optional `AnyOf` over scalars that are stored unchanged: both paths keep the value -/
+theorem deserAny_raw_id : ∀ (fs : List FieldDecl) (v w : PyVal), fs.all rawOrNone = true →
+    deserAny O opts fs v = .ok w → w = v
+  | [], _, _, _, h => by simp [deserAny] at h
+  | f :: fs, v, w, hs, h => by
+    simp only [List.all_cons, and_true_iff] at hs
+    simp only [deserAny] at h
+    cases hd : deser O opts false f v with
+    | ok y =>
+      simp only [hd] at h; cases h
+      exact deser_scalar_id O opts false f v w (rawOrNone_scalar f hs.1) hd
+    | error e => simp only [hd] at h; exact deserAny_raw_id fs v w hs.2 h
+
+theorem validateAny_raw_id : ∀ (fs : List FieldDecl) (v u : PyVal), fs.all rawOrNone = true →
+    plainAll opts fs v = true → validateAny O fs v = .ok u → u = v
+  | [], _, _, _, _, h => by simp [validateAny] at h
+  | f :: fs, v, u, hs, hp, h => by
+    simp only [List.all_cons, and_true_iff] at hs
+    simp only [plainAll, and_true_iff] at hp
+    simp only [validateAny] at h
+    cases hd : validate O f v with
+    | ok y =>
+      simp only [hd] at h; cases h
+      exact validate_scalar_id O opts f v u (rawOrNone_scalar f hs.1) hp.1 hd
+    | error e => simp only [hd] at h; exact validateAny_raw_id fs v u hs.2 hp.2 h
+
+theorem feq_anyof_raw (b ign : Bool) (fs : List FieldDecl) (v w u : PyVal)
+    (hopt : isOptAnyOf fs = false) (hs : fs.all rawOrNone = true)
+    (hp : plainAll opts fs v = true) (hn : v.isNone = false)
+    (hd : deser O opts ign (.anyOf fs) v = .ok w) (hv : validate O (.anyOf fs) w = .ok u) :
+    FEq O b (.anyOf fs) v u := by
+  simp only [deser, hn, Bool.false_and, Bool.false_eq_true, if_false] at hd
+  have hw := deserAny_raw_id O opts fs v w hs hd
+  subst hw
+  simp only [validate] at hv
+  have hu := validateAny_raw_id O opts fs w u hs hp hv
+  subst hu
+  refine ⟨u, u, ?_, ?_, rfl, rfl, fun _ => rfl, hn⟩
+  · simp [enumPre, hopt]
+  · simp [tVal, hopt]
 
 theorem deser_nonNone_top (ign : Bool) (f : FieldDecl) (v w : PyVal) (hs : tsafeTop f = true)
     (hp : plainV opts f v = true) (hn : v.isNone = false) (hd : deser O opts ign f v = .ok w) :
@@ -746,30 +888,63 @@ theorem deser_nonNone_top (ign : Bool) (f : FieldDecl) (v w : PyVal) (hs : tsafe
   by_cases ha : ∃ fs, f = .anyOf fs
   · rcases ha with ⟨fs, rfl⟩
     simp only [tsafeTop] at hs
-    rcases tsafeOpt_cases fs hs with ⟨x, y, rfl, hc⟩
-    simp only [plainV, plainAll, and_true_iff] at hp
-    simp only [deser, hn, Bool.false_and, Bool.false_eq_true, if_false, deserAny] at hd
-    rcases hc with ⟨hy, hx, _⟩ | ⟨hx, hy⟩
-    · rw [isNoneF_eq y hy] at hd
-      cases hdx : deser O opts false x v with
-      | ok w' =>
-        simp only [hdx] at hd; cases hd
-        exact deser_nonNone_D O opts false x v w hx hp.1 hn hdx
-      | error e => simp [hdx, deser_noneF_err O opts false v hn] at hd
-    · rw [isNoneF_eq x hx] at hd
-      simp only [deser_noneF_err O opts false v hn] at hd
-      cases hdy : deser O opts false y v with
-      | ok w' =>
-        simp only [hdy] at hd; cases hd
-        rw [deser_scalar_id O opts false y v w (Or.inr hy) hdy]; exact hn
-      | error e => simp [hdy] at hd
+    by_cases hopt : isOptAnyOf fs = true
+    · simp only [hopt, if_true] at hs
+      rcases tsafeOpt_cases fs hs with ⟨x, y, rfl, hc⟩
+      simp only [plainV, plainAll, and_true_iff] at hp
+      simp only [deser, hn, Bool.false_and, Bool.false_eq_true, if_false, deserAny] at hd
+      rcases hc with ⟨hy, hx, _⟩ | ⟨hx, _, hy, _⟩
+      · rw [isNoneF_eq y hy] at hd
+        cases hdx : deser O opts false x v with
+        | ok w' =>
+          simp only [hdx] at hd; cases hd
+          exact deser_nonNone_D O opts false x v w hx hp.1 hn hdx
+        | error e => simp [hdx, deser_noneF_err O opts false v hn] at hd
+      · rw [isNoneF_eq x hx] at hd
+        simp only [deser_noneF_err O opts false v hn] at hd
+        cases hdy : deser O opts false y v with
+        | ok w' =>
+          simp only [hdy] at hd; cases hd
+          exact deser_nonNone_D O opts false y v w hy hp.2.1 hn hdy
+        | error e => simp [hdy] at hd
+    · have hopt' : isOptAnyOf fs = false := by simpa using hopt
+      simp only [hopt', Bool.false_eq_true, if_false] at hs
+      simp only [deser, hn, Bool.false_and, Bool.false_eq_true, if_false] at hd
+      rw [deserAny_raw_id O opts fs v w hs hd]; exact hn
   · have hd' : tsafeD f = true := by
       cases f <;> first | exact hs | exact absurd ⟨_, rfl⟩ ha
     exact deser_nonNone_D O opts ign f v w hd' hp hn hd
 
-theorem enumPre_opt (x : FieldDecl) (v : PyVal) (hx : tsafeD x = true) :
-    enumPre (.anyOf [x, .noneF]) v = enumPre x v := by
-  cases x <;> first | rfl | simp [tsafeD] at hx | simp [enumPre, isNoneF]
+theorem enumPre_D (x : FieldDecl) (v : PyVal) (hx : tsafeD x = true) : enumPre x v = enumPreD x v := by
+  cases x <;> first | rfl | simp [tsafeD] at hx
+
+theorem isNoneF_noneF' : isNoneF .noneF = true := rfl
+
+theorem enumPre_optA (x : FieldDecl) (v : PyVal) :
+    enumPre (.anyOf [x, .noneF]) v = enumPreD x v := by
+  have h1 : isOptAnyOf [x, .noneF] = true := by simp [isOptAnyOf, isNoneF_noneF']
+  have h2 : optPick [x, .noneF] = x := by simp only [optPick, isNoneF_noneF', if_true]
+  simp only [enumPre, h1, if_true, h2]
+
+theorem enumPre_optB (y : FieldDecl) (v : PyVal) (hy : isNoneF y = false) :
+    enumPre (.anyOf [.noneF, y]) v = enumPreD y v := by
+  have h1 : isOptAnyOf [.noneF, y] = true := by simp [isOptAnyOf, isNoneF_noneF']
+  have h2 : optPick [.noneF, y] = y := by simp only [optPick, hy, Bool.false_eq_true, if_false]
+  simp only [enumPre, h1, if_true, h2]
+
+theorem tHead_A (x : FieldDecl) (v : PyVal) : tHead noMappers [x, .noneF] v = tVal noMappers false x v := by
+  simp only [tHead, isNoneF_noneF', if_true]
+
+theorem tHead_B (y : FieldDecl) (v : PyVal) (hy : isNoneF y = false) :
+    tHead noMappers [.noneF, y] v = tVal noMappers false y v := by
+  simp only [tHead, hy, Bool.false_eq_true, if_false]
+
+theorem isOpt_A (x : FieldDecl) : isOptAnyOf [x, .noneF] = true := by simp [isOptAnyOf, isNoneF_noneF']
+theorem isOpt_B (y : FieldDecl) : isOptAnyOf [.noneF, y] = true := by simp [isOptAnyOf, isNoneF_noneF']
+
+theorem serFirst_skip_noneF (rest : List FieldDecl) (z : PyVal) (h : z.isNone = false) :
+    serFirst O (.noneF :: rest) z = serFirst O rest z := by
+  simp [serFirst, shallowOk, h]
 
 theorem plain_classref_nonNone (item : FieldDecl) (x : PyVal) (hc : isClassRef item = true)
     (hp : plainV opts item x = true) : x.isNone = false := by
@@ -811,8 +986,9 @@ theorem tval_equiv : ∀ (f : FieldDecl) (b ign : Bool) (v w u : PyVal),
     exact feq_enumCls O opts b ign cls names v w u hs hp hd hv
   | .seqOf .list item sz, b, ign, v, w, u, hs, _, hp, _, hd, hv => by
     simp only [tsafeTop, tsafeD, Bool.or_eq_true, and_true_iff] at hs
-    rcases hs with hi | ⟨hc, hi⟩
+    rcases hs with (hi | ⟨hE, _⟩) | ⟨hc, hi⟩
     · exact feq_arr_scalar O opts b ign item sz v w u hi hp hd hv
+    · exact feq_arr_enum O opts b ign item sz v w u hE hp hd hv
     · refine feq_arr_class O opts b ign item sz v w u hc hp hd hv (fun x hpx w' u' hdx hvx => ?_)
       have hxn := plain_classref_nonNone opts item x hc hpx
       rcases tval_equiv item false false x w' u' (tsafeTop_of_D item hi)
@@ -821,26 +997,33 @@ theorem tval_equiv : ∀ (f : FieldDecl) (b ign : Bool) (v w u : PyVal),
       cases e1
       exact ⟨u'', e2, e3, e4⟩
   | .setOf imm item sz, b, ign, v, w, u, hs, _, hp, _, hd, hv => by
-    simp only [tsafeTop, tsafeD] at hs
-    exact feq_set_scalar O opts b ign imm item sz v w u hs hp hd hv
+    simp only [tsafeTop, tsafeD, Bool.or_eq_true, and_true_iff] at hs
+    rcases hs with hs | ⟨hE, _⟩
+    · exact feq_set_scalar O opts b ign imm item sz v w u hs hp hd hv
+    · exact feq_set_enum O opts b ign imm item sz v w u hE hp hd hv
   | .struct c fields defaults, b, ign, v, w, u, hs, _, hp, _, hd, hv => by
     simp only [tsafeTop, tsafeD, and_true_iff, Bool.not_eq_true'] at hs
-    rcases class_equiv O opts ign false c fields defaults v w hs.1.1.1 hs.1.2 hp hd
+    rcases class_equiv O opts ign false c fields defaults v w hs.1.1 hp hd
       (fun doc args attrs hpf a1 a2 hvf =>
         tfields_equiv fields c fields defaults doc args false attrs hs.2 hpf
-          (lookup_of_mem_nodup fields hs.1.1.2) a1 a2 (fun h => by cases h) hvf) with ⟨u', g1, g2, g3, g4, g5, g6⟩
-    simp only [validate, hs.1.1.1, Bool.false_eq_true, if_false] at hv
+          (lookup_of_mem_nodup fields hs.1.2) a1 a2 (fun h => by cases h) hvf) with ⟨u', g1, g2, g3, g4, g5, g6⟩
+    simp only [validate, hs.1.1, Bool.false_eq_true, if_false] at hv
     have hu := g6 u hv
     subst hu
     refine ⟨v, u', rfl, ?_, g2, g3, fun _ => g4, g5⟩
-    simp only [tVal, hs.1.1.1, Bool.false_eq_true, if_false]
+    simp only [tVal, hs.1.1, Bool.false_eq_true, if_false]
     exact g1
   | .anyOf fs, b, ign, v, w, u, hs, hb, hp, hn, hd, hv => by
     have hb' := hb fs rfl
     subst hb'
     simp only [tsafeTop] at hs
     simp only [plainV] at hp
-    exact topt_equiv fs ign v w u hs hp hn hd hv
+    by_cases hopt : isOptAnyOf fs = true
+    · simp only [hopt, if_true] at hs
+      exact topt_equiv fs ign v w u hs hp hn hd hv
+    · have hopt' : isOptAnyOf fs = false := by simpa using hopt
+      simp only [hopt', Bool.false_eq_true, if_false] at hs
+      exact feq_anyof_raw O opts true ign fs v w u hopt' hs hp hn hd hv
   | .seqOf .deque _ _, _, _, _, _, _, hs, _, _, _, _, _ => by simp [tsafeTop, tsafeD] at hs
   | .seqAny _ _, _, _, _, _, _, hs, _, _, _, _, _ => by simp [tsafeTop, tsafeD] at hs
   | .seqPos _ _ _ _, _, _, _, _, _, hs, _, _, _, _, _ => by simp [tsafeTop, tsafeD] at hs
@@ -869,7 +1052,7 @@ theorem topt_equiv : ∀ (fs : List FieldDecl) (ign : Bool) (v w u : PyVal),
     simp only [plainAll, and_true_iff] at hp
     simp only [deser, hn, Bool.false_and, Bool.false_eq_true, if_false, deserAny] at hd
     simp only [validate, validateAny] at hv
-    rcases hc with ⟨hy, hx, hset⟩ | ⟨hx, hy⟩
+    rcases hc with ⟨hy, hx, hset⟩ | ⟨hx, hyn, hy, hset⟩
     · have hyN := isNoneF_eq y hy
       subst hyN
       cases hdx : deser O opts false x v with
@@ -887,8 +1070,8 @@ theorem topt_equiv : ∀ (fs : List FieldDecl) (ign : Bool) (v w u : PyVal),
             (fun fs h => absurd h (tsafeD_not_anyOf x hx fs)) hp.1 hn hdx hvx with ⟨v', u', e1, e2, e3, e4, e5, e6⟩
           have hu'n : u'.isNone = false := by rw [isNone_of_tnorm_eq e3]; exact e6
           refine ⟨v', u', ?_, ?_, e3, ?_, fun _ => rfl, e6⟩
-          · rw [enumPre_opt x v hx]; exact e1
-          · simp [tVal, tHead, isOptAnyOf, isNoneF, e2]
+          · rw [enumPre_optA x v, ← enumPre_D x v hx]; exact e1
+          · simp only [tVal, isOpt_A, Bool.and_self, if_true, tHead_A]; exact e2
           · simp only [ser]
             exact serFirst_cons_congr O x [.noneF] u u' e4 (e5 hset)
               (by rw [serFirst_noneF O u' hu'n, serFirst_noneF O u e6])
@@ -900,19 +1083,23 @@ theorem topt_equiv : ∀ (fs : List FieldDecl) (ign : Bool) (v w u : PyVal),
       | ok w' =>
         simp only [hdy] at hd
         cases hd
-        have hw := deser_scalar_id O opts false y v w (Or.inr hy) hdy
-        subst hw
-        have hvn : validate O .noneF w = .error .typeErr := by simp [validate, vNone, hn]
+        have hwn := deser_nonNone_D O opts false y v w hy hp.2.1 hn hdy
+        have hvn : validate O .noneF w = .error .typeErr := by simp [validate, vNone, hwn]
         simp only [hvn] at hv
         cases hvy : validate O y w with
         | error e => simp [hvy] at hv
         | ok u0 =>
           simp only [hvy] at hv
           cases hv
-          have hu := validate_scalar_id O opts y w u (Or.inr hy) hp.2.1 hvy
-          subst hu
-          refine ⟨u, u, rfl, ?_, rfl, rfl, fun _ => rfl, hn⟩
-          simp [tVal, tHead, isOptAnyOf, isNoneF]
+          rcases tval_equiv y false false v w u (tsafeTop_of_D y hy)
+            (fun fs h => absurd h (tsafeD_not_anyOf y hy fs)) hp.2.1 hn hdy hvy with ⟨v', u', e1, e2, e3, e4, e5, e6⟩
+          have hu'n : u'.isNone = false := by rw [isNone_of_tnorm_eq e3]; exact e6
+          refine ⟨v', u', ?_, ?_, e3, ?_, fun _ => rfl, e6⟩
+          · rw [enumPre_optB y v hyn, ← enumPre_D y v hy]; exact e1
+          · simp only [tVal, isOpt_B, Bool.and_self, if_true, tHead_B y v' hyn]; exact e2
+          · simp only [ser]
+            rw [serFirst_skip_noneF O [y] u' hu'n, serFirst_skip_noneF O [y] u e6]
+            exact serFirst_cons_congr O y [] u u' e4 (e5 hset) rfl
 
 /-- **field loop**: the attributes the trusted branch builds for the (remaining) fields vs the
     attributes the constructor stores for the arguments the regular path hands it -/
@@ -938,7 +1125,7 @@ theorem tfields_equiv : ∀ (rest : List (String × FieldDecl)) (c : ClassOpts)
     simp only [and_true_iff] at hs
     simp only [plainFields, and_true_iff] at hp
     exact tfields_cons O opts c fields defaults doc args raw n f rest attrs hp.1 (hl (n, f) (by simp)) a1 a2
-      (dropsF_of_tsafeTop f hs.1) (fun hr v => hraw hr (n, f) (by simp) v)
+      (fun hr v => hraw hr (n, f) (by simp) v)
       (fun v y hpv hnv hdv => deser_nonNone_top O opts c.ignoreNone f v y hs.1 hpv hnv hdv)
       (fun v y u hpv hnv hdv hvv => by
         rcases tval_equiv f true c.ignoreNone v y u hs.1 (fun _ _ => rfl) hpv hnv hdv hvv with
@@ -963,24 +1150,30 @@ theorem fieldsV_nested_ne_flat (Mp : MapEnv) : ∀ fs : List (String × FieldDec
   | [] => by simp [fieldsV]
   | (_, f) :: rest => by
     simp only [fieldsV]
-    cases effOf Mp f <;> simp <;> exact fieldsV_nested_ne_flat Mp rest
+    cases effOf Mp true f <;> simp <;> exact fieldsV_nested_ne_flat Mp rest
 
 theorem refEff_ne_keep (v : Verdict) : refEff v ≠ .keep := by cases v <;> simp [refEff]
+theorem optEff_ne_keep (e : FEff) : optEff e ≠ .keep := by cases e <;> simp [optEff]
 
 theorem isSetScalarOk_valid (f : FieldDecl) (h : isSetScalarOk f = true) : isValidCls f = true := by
   cases f <;> simp [isSetScalarOk] at h <;> rfl
 
-theorem classref_effOf_ne_keep (Mp : MapEnv) (f : FieldDecl) (h : isClassRef f = true) : effOf Mp f ≠ .keep := by
+theorem isEnumDecl_valid (f : FieldDecl) (h : isEnumDecl f = true) : isValidCls f = true := by
+  cases f <;> simp [isEnumDecl] at h <;> rfl
+
+theorem classref_effOf_ne_keep (Mp : MapEnv) (b : Bool) (f : FieldDecl) (h : isClassRef f = true) :
+    effOf Mp b f ≠ .keep := by
   cases f <;> simp [isClassRef] at h
   simp only [effOf, h, Bool.false_eq_true, if_false]
   exact refEff_ne_keep _
 
-theorem classref_not_valid (f : FieldDecl) (h : isClassRef f = true) : isValidCls f = false := by
-  cases f <;> simp [isClassRef] at h; rfl
+theorem classref_not_valid (f : FieldDecl) (h : isClassRef f = true) :
+    isValidCls f = false ∧ isEnumDecl f = false := by
+  cases f <;> simp [isClassRef] at h; exact ⟨rfl, rfl⟩
 
 /-- a field that leaves the classifier at `not_nested` is stored as it is by `_remap_input` -/
-theorem keep_raw (f : FieldDecl) (v : PyVal) (hs : tsafeTop f = true) (hk : effOf noMappers f = .keep) :
-    tVal noMappers true f v = .ok v := by
+theorem keep_raw (f : FieldDecl) (v : PyVal) (hs : tsafeTop f = true)
+    (hk : effOf noMappers true f = .keep) : tVal noMappers true f v = .ok v := by
   cases f <;> try (simp [tsafeTop, tsafeD] at hs)
   case number => simp [tVal]
   case integer => simp [tVal]
@@ -993,25 +1186,30 @@ theorem keep_raw (f : FieldDecl) (v : PyVal) (hs : tsafeTop f = true) (hk : effO
   case seqOf k item sz =>
     cases k
     · simp only [tsafeD, Bool.or_eq_true, and_true_iff] at hs
-      rcases hs with hi | ⟨hc, _⟩
+      rcases hs with (hi | ⟨hE, _⟩) | ⟨hc, _⟩
       · simp [tVal, (isArrScalar_not_ref item hi).1, (isArrScalar_not_ref item hi).2]
-      · simp only [effOf, classref_not_valid item hc, hc, Bool.false_eq_true, if_false, if_true] at hk
-        exact absurd hk (classref_effOf_ne_keep noMappers item hc)
+      · simp [effOf, hE] at hk
+      · simp only [effOf, (classref_not_valid item hc).1, (classref_not_valid item hc).2, hc,
+          Bool.false_eq_true, if_false, if_true] at hk
+        exact absurd hk (classref_effOf_ne_keep noMappers false item hc)
     · simp [tsafeD] at hs
   case setOf imm item sz =>
-    simp [effOf, isSetScalarOk_valid item hs] at hk
+    have hval : isValidCls item = true := by
+      rcases hs with h | ⟨h, _⟩
+      · exact isSetScalarOk_valid item h
+      · exact isEnumDecl_valid item h
+    simp [effOf, hval] at hk
   case struct c fields defaults =>
     simp only [effOf] at hk
     split at hk
     · cases hk
     · exact absurd hk (refEff_ne_keep _)
   case anyOf fs =>
-    rcases tsafeOpt_cases fs hs with ⟨x, y, rfl, hc⟩
-    have : isOptAnyOf [x, y] = true := by
-      rcases hc with ⟨hy, _, _⟩ | ⟨hx, _⟩
-      · simp [isOptAnyOf, hy]
-      · simp [isOptAnyOf, hx]
-    simp [effOf, this] at hk
+    by_cases hopt : isOptAnyOf fs = true
+    · simp only [effOf, hopt, Bool.and_self, if_true] at hk
+      exact absurd hk (optEff_ne_keep _)
+    · have hopt' : isOptAnyOf fs = false := by simpa using hopt
+      simp [tVal, hopt']
 
 theorem flat_fields_raw : ∀ fields : List (String × FieldDecl),
     fieldsV noMappers fields .flat = .lvl .flat → tsafeFields fields = true →
@@ -1021,7 +1219,7 @@ theorem flat_fields_raw : ∀ fields : List (String × FieldDecl),
     rw [tsafeFields_cons] at hs
     simp only [and_true_iff] at hs
     simp only [fieldsV] at hv
-    cases he : effOf noMappers f with
+    cases he : effOf noMappers true f with
     | raises => simp [he] at hv
     | reject => simp [he] at hv
     | nested => simp only [he] at hv; exact absurd hv (fieldsV_nested_ne_flat noMappers rest)
@@ -1053,7 +1251,7 @@ theorem trusted_equiv_core (cls : FieldDecl) (d x : PyVal)
     cases d <;> simp at hpd
     exact ⟨_, rfl⟩
   rcases hdict with ⟨kvs, rfl⟩
-  rw [deserialize_eq_deser O opts c fields defaults kvs hs.1.1.1] at hr
+  rw [deserialize_eq_deser O opts c fields defaults kvs hs.1.1] at hr
   unfold eligible at he
   cases hvd : verdictOf noMappers (.struct c fields defaults) with
   | raises => simp [hvd] at he
@@ -1065,10 +1263,10 @@ theorem trusted_equiv_core (cls : FieldDecl) (d x : PyVal)
       subst this
       simp only [verdictOf, noMappers, TMapper.isComplex, Bool.false_eq_true, if_false] at hvd
       exact flat_fields_raw fields hvd hs.2
-    rcases class_equiv O opts false (l == Lvl.flat) c fields defaults (.dict kvs) x hs.1.1.1 hs.1.2 hpd hr
+    rcases class_equiv O opts false (l == Lvl.flat) c fields defaults (.dict kvs) x hs.1.1 hpd hr
       (fun doc args attrs hpf a1 a2 hvf =>
         tfields_equiv O opts fields c fields defaults doc args (l == Lvl.flat) attrs hs.2 hpf
-          (lookup_of_mem_nodup fields hs.1.1.2) a1 a2 hraw hvf) with ⟨u', g1, g2, g3, _, _, _⟩
+          (lookup_of_mem_nodup fields hs.1.2) a1 a2 hraw hvf) with ⟨u', g1, g2, g3, _, _, _⟩
     refine ⟨u', ?_, g2, g3⟩
     simp only [deserializeTrusted, hvd]
     exact g1
